@@ -489,6 +489,21 @@ func runDig(c digCase, r *pb.Rec) error {
 			if err != nil || string(got) != w {
 				return fmt.Errorf("%sStream(%x chunks %v) = %q,%v want %q", o.name, c.Data, c.Chunks, got, err, w)
 			}
+			// readers that can seek, handed over after the caller has already consumed a prefix: the digest is that of
+			// what the reader still delivers
+			prefix := []byte("consumed before the call: ")[:len(c.Data)%7+1]
+			whole := append(append([]byte(nil), prefix...), c.Data...)
+			br := bytes.NewReader(whole)
+			io.CopyN(io.Discard, br, int64(len(prefix)))
+			sr := strings.NewReader(string(whole))
+			sr.Seek(int64(len(prefix)), io.SeekStart)
+			sec := io.NewSectionReader(bytes.NewReader(append(append([]byte("outside"), whole...), "outside"...)), 7, int64(len(whole)))
+			sec.Seek(int64(len(prefix)), io.SeekStart)
+			for ri, rd := range []io.Reader{br, sr, sec} {
+				if got, err := o.stream(rd); err != nil || string(got) != w {
+					return fmt.Errorf("%sStream over a seekable reader (kind %d) of which %d bytes had been consumed before the call = %q,%v; digest of the remaining %d bytes: %q", o.name, ri, len(prefix), got, err, len(c.Data), w)
+				}
+			}
 		}
 	}
 	for i, hf := range []func() hash.Hash{md5.New, sha1.New, sha256.New, sha512.New} {
